@@ -108,7 +108,9 @@ func c08(c *Ctx) {
 		msg := facts.Term(tm.Call.Args[0])
 		fs := facts.At(sd.Instr, nil)
 		want := "(N/alephium.Byte32).equalWith(" + msg + ".senderId,w.tokenBridgeContractId)"
-		R.Check("C08.sender", key, pos, "send on msgChan in "+shortFn(sd.Fn)+" requires msg.senderId == configured token bridge id for the message being sent", facts.HasAtom(fs, want), "missing fact "+want, facts.Atoms(fs)...)
+		// (byte equality is symmetric — C08.sender/Byte32.equalWith checks the body)
+		wantSym := "(N/alephium.Byte32).equalWith(w.tokenBridgeContractId," + msg + ".senderId)"
+		R.Check("C08.sender", key, pos, "send on msgChan in "+shortFn(sd.Fn)+" requires msg.senderId == configured token bridge id for the message being sent", facts.HasAtom(fs, want) || facts.HasAtom(fs, wantSym), "missing fact "+want, facts.Atoms(fs)...)
 		// the sink forwards only elements of its parameter, header of the same element
 		hdr := facts.Term(tm.Call.Args[1])
 		top := sd.Fn
